@@ -500,6 +500,37 @@ def fingerprints(specs):
     return out
 
 
+def tree_hash():
+    """sha1 over all Python sources of the package under test (REPO/evo/**/*.py)"""
+    h = hashlib.sha1()
+    for f in sorted((REPO / "evo").rglob("*.py")):
+        h.update(str(f.relative_to(REPO)).encode() + b"\0" + f.read_bytes() + b"\0")
+    return h.hexdigest()[:16]
+
+
+def tree_changed():
+    """does the tree under test differ from the one the harness was validated on (fingerprints.json: __tree__)?"""
+    f = VERIF / "harness" / "fingerprints.json"
+    known = json.loads(f.read_text()) if f.exists() else {}
+    return known.get("__tree__") is not None and known.get("__tree__") != tree_hash()
+
+
+def harness_crash(prop, seed, exc_text):
+    """An exception of the harness itself while it drives / interprets evo.  On the tree the harness was validated on this is a
+    tool error (exit 2).  On a changed tree it means that evo no longer behaves in a way the correspondence run can even
+    process: the correspondence is broken, no failing input was isolated -> VIOLATION ... no-failing-input-found."""
+    if not tree_changed():
+        return None
+    rp = write_replay(prop, "correspondence-broken", {
+        "seed": seed, "case": None,
+        "correspondence": f"harness/props/{prop}.py could not drive or interpret the changed code (exception below); the model "
+                          f"<-> implementation correspondence of {prop} no longer checks",
+        "exception": exc_text[-3000:],
+        "note": "no failing input was isolated: the run stopped at the first point where evo's behaviour left the protocol"})
+    print(f"VIOLATION property={prop} replay={rp} no-failing-input-found")
+    return 1
+
+
 def drift(ctx, specs):
     """Compare with harness/fingerprints.json (committed). A changed modelled function is not a violation:
     it is recorded in the evidence and switches the correspondence run to the thorough budget."""
